@@ -15,7 +15,7 @@ from vk.refserver import RefServer, VClock
 PROPERTY = "C19"
 LEVEL = "exploration"
 RULE = ("node lists of 1..6 nodes over a universe of 6 (distinct host names, IPs and ports) x use_vpc on/off x all sequences of "
-        "reconfigurations (scale-up, scale-down, replace, reorder) up to length 2 (thorough 3) over a pool of 9 lists, sampled "
+        "reconfigurations (scale-up, scale-down, replace, reorder) up to length 2 (thorough 3) over a pool of 11 lists (sizes 1..6), sampled "
         "beyond x reply segmentations (whole, every single cut of the config reply, single bytes, cuts inside the 7-byte end "
         "token) x traffic between reconfigurations, a failing node before a reconfiguration, pooling on/off; endpoint answering "
         "ERROR. Non-trivial = a reconfiguration that removes a node, or a split reply; distinct by (list sequence, use_vpc, "
@@ -30,7 +30,7 @@ SHARDS = {"quick": 16, "thorough": 16}
 TIMEOUT = {"quick": 900, "thorough": 7200}
 
 UNIVERSE = [("node%d.abc.use1.cache.amazonaws.com" % i, "10.9.0.%d" % (10 + i), 11211 + i) for i in range(6)]
-LISTS = [(0,), (0, 1), (0, 1, 2), (1, 2), (2,), (3, 4, 5), (0, 1, 2, 3, 4, 5), (5, 0), (1, 0)]
+LISTS = [(0,), (0, 1), (0, 1, 2), (1, 2), (2,), (3, 4, 5), (0, 1, 2, 3, 4, 5), (5, 0), (1, 0), (0, 2, 3, 5), (4, 3, 2, 1, 0)]
 CFG = "mycluster.abc.cfg.use1.cache.amazonaws.com"
 CORPUS = ["key-%d" % i for i in range(400)]
 
